@@ -72,7 +72,10 @@ theorem first_of_accepted (env : Env) (head : Bytes) (h : (C01.expect env head).
     rcases List.mem_append.1 hq with hq | hq
     · rcases List.mem_cons.1 hq with rfl | hq
       · simp
-      · intro hc; have := (hl q hq).1; rw [hc] at this; cases this
+      · intro hc
+        obtain ⟨n, x, e', _, _⟩ := (hl q hq).1
+        rw [hc] at e'
+        simp at e'
     · have : q = [13] := by simpa using hq
       subst this; simp
 
